@@ -83,7 +83,19 @@ func mutateOnce(r *rand.Rand, b []byte) []byte {
 	if len(b) > 0 {
 		pos = r.Intn(len(b) + 1)
 	}
-	switch r.Intn(14) {
+	switch r.Intn(16) {
+	case 14, 15: // one punctuation character written as another ("=" for ":", "]" for "}", ...)
+		idxs := []int{}
+		for i, c := range b {
+			if strings.IndexByte(":=,;{}[]()", c) >= 0 {
+				idxs = append(idxs, i)
+			}
+		}
+		if len(idxs) == 0 {
+			return b
+		}
+		p := Pick(r, idxs)
+		return splice(b, p, p+1, []byte{":=,;{}[]()"[r.Intn(10)]})
 	case 0, 1, 2: // insert hostile token
 		t := Pick(r, hostileTokens)
 		return splice(b, pos, pos, []byte(t))
@@ -166,6 +178,27 @@ func mutateOnce(r *rand.Rand, b []byte) []byte {
 	default: // random byte
 		return splice(b, pos, pos, []byte{byte(r.Intn(256))})
 	}
+}
+
+// SwapPunct replaces one punctuation character by another one ("=" written
+// for ":", a missing or wrong bracket): the most common hand-made damage.
+func SwapPunct(r *rand.Rand, src []byte) []byte {
+	idxs := []int{}
+	for i, c := range src {
+		if strings.IndexByte(":=,;{}[]()", c) >= 0 {
+			idxs = append(idxs, i)
+		}
+	}
+	if len(idxs) == 0 {
+		return src
+	}
+	p := Pick(r, idxs)
+	// half of the time the confusable partner, otherwise any punctuation
+	partner := map[byte]byte{':': '=', '=': ':', '{': '[', '[': '{', '}': ']', ']': '}', ',': ';', ';': ',', '(': '[', ')': ']'}
+	if Chance(r, 0.5) {
+		return splice(src, p, p+1, []byte{partner[src[p]]})
+	}
+	return splice(src, p, p+1, []byte{":=,;{}[]()"[r.Intn(10)]})
 }
 
 func splice(b []byte, p, q int, ins []byte) []byte {
